@@ -403,6 +403,72 @@ async def relogin(net, hyg, plan):
         w.cleanup()
 
 
+async def relogin_mid_transfer(net, hyg, plan):
+    """black box: a transfer that started under an account's limit keeps that limit to its end, also when USER for an account
+    without limits arrives on the control connection meanwhile (RFC 959: a transfer in progress is completed under the old
+    access control parameters)"""
+    from ..rawpeer import RawPeer
+    loop = asyncio.get_running_loop()
+    mon = {"relogin_mid_transfer": 0}
+    viol = []
+    L, size, d = plan["L"], plan["size"], plan["direction"]
+    key = ("write" if d == "download" else "read") + "_speed_limit" + ("_per_connection" if plan["level"] == "user_connection" else "")
+    users = [aioftp.User("slow", None, base_path="/", **{key: L}), aioftp.User("free", None, base_path="/")]
+    w = W.World(net, tree={"/f.bin": payload_bytes(size, 2)}, users=users)
+    await w.start()
+    try:
+        p = RawPeer(net, 2121, name="mid")
+        await p.connect()
+        for ln in ("USER slow", "TYPE I"):
+            await p.cmd(ln)
+        port = p.parse_epsv(await p.cmd("EPSV"))
+        dr, dw = await p.open_data(port)
+        t0 = loop.time()
+        moved = 0
+        if d == "download":
+            p.send("RETR /f.bin")
+            sent_user = False
+            while True:
+                b = await asyncio.wait_for(dr.read(8192), 120)
+                if not b:
+                    break
+                moved += len(b)
+                if not sent_user and moved >= size // 8:
+                    sent_user = True
+                    p.send("USER free")
+            dw.close()
+        else:
+            p.send("STOR /up.bin")
+            payload = payload_bytes(size, 3)
+            for off in range(0, size, 8192):
+                dw.write(payload[off:off + 8192])
+                await asyncio.wait_for(dw.drain(), 120)
+                if off == (size // 8) // 8192 * 8192:
+                    p.send("USER free")
+            dw.close()
+            await p.read_data(dr, wait=120)
+            for _ in range(4):
+                rr = await p.read_reply(wait=120)
+                if rr in (None, "EOF") or rr.code == "226":
+                    break
+            moved = len(w.tree().get("/up.bin", b""))
+        dur = loop.time() - t0
+        mon["relogin_mid_transfer"] += 1
+        lower = (moved - 4 * 8192 - 65536 - L * 0.05) / L * 0.9      # (what sits in network buffers when the peer is done writing)
+        if moved != size:
+            viol.append({"key": "relogin-transfer-failed", "msg": f"{plan}: {moved} of {size} bytes moved"})
+        elif dur < lower:
+            viol.append({"key": f"faster-than-limit-allows:relogin-mid-transfer:{plan['level']}",
+                         "msg": f"{plan}: a transfer of {size} bytes begun under {key}={L}, USER for an unlimited account sent after an "
+                                f"eighth of it: done in {dur:.3f}s, the limit needs at least {lower:.3f}s"})
+        p.cut("fin")
+        await w.stop()
+        return {"violations": viol, "monitors": mon, "sig": sig_of(plan), "nontrivial": True,
+                "sample": {"plan": plan, "duration_s": round(dur, 4), "bytes": moved}}
+    finally:
+        w.cleanup()
+
+
 async def relogin_repeat(net, hyg, plan):
     """black box: a session that sends USER for its own account again before every transfer (with or without waiting for the
     replies) stays under the per-connection / per-user limit of that account: k one-block transfers take what k blocks take"""
@@ -548,7 +614,7 @@ async def relogin_shared(net, hyg, plan):
 def run_case(case):
     out = {"violations": [], "monitors": {}, "sigs": []}
     for plan in case["plans"]:
-        fn = {"api": api_trace, "e2e": e2e, "relogin": relogin, "relogin_shared": relogin_shared, "relogin_repeat": relogin_repeat}[plan["kind"]]
+        fn = {"api": api_trace, "e2e": e2e, "relogin": relogin, "relogin_shared": relogin_shared, "relogin_repeat": relogin_repeat, "relogin_mid_transfer": relogin_mid_transfer}[plan["kind"]]
 
         async def main(net, hyg, plan=plan, fn=fn):
             return await fn(net, hyg, plan)
@@ -655,6 +721,10 @@ def gen_cases(tier, seed):
                 for password in ((False,) if tier == "quick" else (False, True)):
                     rel.append({"kind": "relogin_repeat", "seed": seed, "level": level, "direction": d, "pipelined": pipelined, "password": password,
                                 "L": rng.choice([8192, 16384]), "block": rng.choice([4096, 8192]), "k": rng.choice([8, 10, 14])})
+    for level in ("user_connection", "user"):
+        for d in ("download", "upload"):
+            rel.append({"kind": "relogin_mid_transfer", "seed": seed, "level": level, "direction": d, "L": rng.choice([100000, 200000]),
+                        "size": rng.choice([400000, 600000])})
     per = 40
     api = [p for p in plans if p["kind"] == "api"]
     ee = [p for p in plans if p["kind"] == "e2e"]
